@@ -597,6 +597,51 @@ def one_batch(chk, drv, b):
         staged.append((v, res))
     if drv and staged:
         correspond(chk, drv, b, staged)
+    inplace_stage(chk, drv, b)
+
+
+def inplace_stage(chk, drv, b):
+    """messages built by Cls() and filled IN PLACE (m.sub.x = 1, m.items.append(x), m.table[k] = v): the holders are
+    not marked `serialized_on_wire`, yet bytes(m) carries the content — and so must the dict (D46)"""
+    from props.c09 import fill_inplace
+    lines, wants = [], []
+    for v in b.values[:6]:
+        ci = v[1]
+        cls = b.classes[ci]
+        try:
+            m = cls()
+            t = fill_inplace(m, b, ci, v, chk.rng)
+            want_bytes = bytes(m)
+        except Exception as e:
+            chk.count("inplace_skipped_" + type(e).__name__)
+            continue
+        if not want_bytes:
+            continue
+        base = {"schema": b.describe(), "built_in_place": t, "value": bpgen.term(v)}
+        chk.case(b.schema_line() + "|inplace|" + t, True, {"built_in_place": t[:200]})
+        chk.count("inplace_roundtrips")
+        for cname, casing in CASINGS:
+            inp = dict(base, casing=cname)
+            try:
+                d = m.to_dict(casing=casing)
+                m2 = cls().from_dict(copy.deepcopy(d))
+                b2 = bytes(m2)
+            except Exception as e:
+                record(chk, "from-dict-raises", dict(inp, form="dict-instance"), repr(e))
+                continue
+            if b2 != want_bytes:
+                record(chk, "bytes-differ-after-roundtrip", dict(inp, form="dict-instance"),
+                       "dict=%r want=%s got=%s" % (d, want_bytes.hex(), b2.hex()))
+            if drv:
+                try:
+                    lines.append("TODICT %s %s 0 %s" % (b.sid, cname, t))
+                    wants.append(canon_msg(d, b.schema, ci))
+                except Exception:
+                    lines.pop() if len(lines) > len(wants) else None
+    if drv and lines:
+        for ln, got, want in zip(lines, drv.ask(lines), wants):
+            if got != want:
+                chk.disagree("to_dict-inplace", {"schema": b.schema_line(), "line": ln}, got, want)
 
 
 def run(chk, drv):
@@ -640,7 +685,21 @@ def _fails(schema, classes, v, casings=CASINGS):
     return c.oracle_failures
 
 
+def _unmarked_submessage():
+    """D46 (fixed): m = Outer(); m.a.b.x = 1 — bytes(m) has the content, the dict must too"""
+    schema = [bpgen.M("M0", [bpgen.F("a", 1, "message", kind="u1")]),
+              bpgen.M("M1", [bpgen.F("b", 1, "message", kind="u2"), bpgen.F("items", 2, "int32", repeated=True)]),
+              bpgen.M("M2", [bpgen.F("x", 1, "int32")])]
+    O, B, C = bpgen.build_bp(schema)
+    m = O()
+    m.a.b.x = 1
+    m2 = O()
+    m2.a.items.append(1)
+    return any(bytes(O().from_dict(k.to_dict())) != bytes(k) for k in (m, m2))
+
+
 WITNESSES = {
+    "unmarked-submessage": _unmarked_submessage,
     "key-not-invertible:camel": lambda: _fails(*_mk([bpgen.F("x_y_z", 1, "int32")]), ("c", 0, {0: ("i", 5)})),
     # D15: camelCase key of `address_line_1` is mapped back to another field name
     "key-casing": lambda: _fails(*_mk([bpgen.F("address_line_1", 1, "int32")]), ("c", 0, {0: ("i", 5)})),
